@@ -295,7 +295,7 @@ type Join struct{ n int }
 func (j *Join) Go(name string, f func()) {
 	j.n++
 	vs.GoNamed(name, func() {
-		defer func() { j.n-- }()
+		defer func() { vs.Yield("join done"); j.n-- }()
 		f()
 	})
 }
